@@ -52,12 +52,15 @@ MISS = ["readme.txt", "song.sm", "video.avi", "thumbs.db", "notes.doc"]
 
 
 def anchors():
-    from simfile import assets as A
-    from simfile.dir import SimfilePack
+    from ..core import pick
 
-    return {"Assets._asset_property": A.Assets._asset_property, "Assets._get_case_insensitive_path": A.Assets._get_case_insensitive_path,
-            "Assets._cache_path": A.Assets._cache_path, "AssetDefinition.matches": A.AssetDefinition.matches,
-            "SimfilePack.banner": SimfilePack.banner}
+    return pick(
+        "simfile.assets:Assets._asset_property",
+        "simfile.assets:Assets._get_case_insensitive_path",
+        "simfile.assets:Assets._cache_path",
+        "simfile.assets:AssetDefinition.matches",
+        "simfile.dir:SimfilePack.banner",
+    )
 
 
 def stem(name):
